@@ -620,4 +620,46 @@ def CtlQ.step (q : CtlQ) : QOp → CtlQ
 
 def CtlQ.run (q : CtlQ) (ops : List QOp) : CtlQ := ops.foldl CtlQ.step q
 
+
+/-! ### 7. C16: what is observed of one fuzzed connection -/
+
+inductive Outcome where
+  | served     -- still open and answering after the bound
+  | goaway     -- the server sent GOAWAY
+  | closed     -- the server closed the connection
+  | stuck      -- neither serving nor ended within the bound
+  | panic      -- serverConn.serve panicked
+  | deadlock   -- synctest reported a deadlocked bubble
+deriving DecidableEq, Repr, Inhabited
+
+/-- one white-box sample taken at a quiescent point -/
+structure Sample where
+  queued : Nat        -- sc.queuedControlFrames
+  handlers : Nat      -- sc.curHandlers
+  running : Nat       -- user handlers running (counted by the harness)
+  alive : Bool        -- serve() has not returned
+deriving DecidableEq, Repr, Inhabited
+
+def Sample.ok (adv : Nat) (x : Sample) : Bool :=
+  (!x.alive || decide (x.queued ≤ maxQueuedControlFrames)) && decide (x.handlers ≤ adv) && decide (x.running ≤ adv)
+
+structure CaseObs where
+  adv : Nat
+  samples : List Sample
+  outcome : Outcome
+  maxQueued : Nat
+  maxHandlers : Nat
+deriving DecidableEq, Repr, Inhabited
+
+def Outcome.acceptable : Outcome → Bool
+  | .served => true
+  | .goaway => true
+  | .closed => true
+  | _ => false
+
+/-- the C16 monitor over the observations of one case -/
+def CaseObs.accept (c : CaseObs) : Bool :=
+  c.outcome.acceptable && c.samples.all (Sample.ok c.adv) &&
+    decide (c.maxQueued ≤ maxQueuedControlFrames) && decide (c.maxHandlers ≤ c.adv)
+
 end NetVerif.Model.H2Server
